@@ -85,6 +85,14 @@ def run_workflow(eng, ctx, which):
         m['rise'].find_rise_offsets(conn, ref)
     else:
         m['recession'].find_recession_offsets(conn, ref)
+    if ctx.get('second_grid'):
+        # a later attempt to set another grid step: refused, or else the curves must not be left
+        # on levels that are no longer grid levels
+        try:
+            m['zeta_grid'].populate_zeta_grid(conn, Fraction(ctx['second_grid']))
+            conn.commit()
+        except Exception:
+            conn.rollback()
     return conn, rec, zeta, rain, epochs, step
 
 
@@ -273,6 +281,8 @@ def replay_real(ctx, m, which):
         if any(e is not None for e in errs):
             info['error'] = [repr(e) for e in errs if e is not None][0]
             return False, info
+        if ctx.get('second_grid'):
+            info['second set-zeta-grid'] = repr(rr.zeta_grid(float(Fraction(ctx['second_grid']))))
         epochs = rec['epochs']
         idx = {t: i for i, t in enumerate(epochs)}
         dzs = {r[0] for r in rr.query('SELECT zeta_number FROM discrete_zeta')}
@@ -346,7 +356,8 @@ _REF = {}
 def config_name(c):
     return 'curve[%s,%s,grid=%s,ongrid=%s%s%s]' % (c['which'], c['pattern'], c['grid'], c['ongrid'],
                                                   ',ref' if c.get('reference') is not None else '',
-                                                  ',gap=%s' % '+'.join(map(str, c['gap'])) if c.get('gap') else '')
+                                                  (',gap=%s' % '+'.join(map(str, c['gap'])) if c.get('gap') else '') +
+                                                  (',regrid=%s' % c['second_grid'] if c.get('second_grid') else ''))
 
 
 def config_from_name(h):
@@ -357,6 +368,8 @@ def config_from_name(h):
             c['reference'] = pick_reference(c['which'])
         elif extra.startswith('gap='):
             c['gap'] = tuple(int(x) for x in extra[4:].split('+'))
+        elif extra.startswith('regrid='):
+            c['second_grid'] = extra[7:]
     return c
 
 
@@ -374,26 +387,31 @@ class C13(Check):
 
     def configs(self):
         quick = self.tier == 'quick'
-        pats = ['A'] if quick else ['A', 'B', 'C']
-        grids = ['1', '1/2'] if quick else ['1', '1/2', '2']
-        modes = ['none', 'alternate'] if quick else ['none', 'alternate', 'all']
         out = []
-        for p in pats:
-            for g in grids:
-                for md in modes:
-                    if quick and g != '1' and md != 'none':
-                        continue
-                    for which in ('rise', 'recession'):
-                        if quick and g != '1' and which == 'recession':
-                            continue
-                        out.append({'pattern': p, 'grid': g, 'ongrid': md, 'which': which})
-        # with a reference level (the -r option), one configuration per kind
+
+        def add(p, g, md, kinds=('rise', 'recession')):
+            for which in kinds:
+                out.append({'pattern': p, 'grid': g, 'ongrid': md, 'which': which})
+        if quick:
+            add('A', '1', 'none')
+            add('A', '1', 'alternate')
+            add('A', '1/2', 'none', ('rise',))
+        else:
+            for md in ('none', 'alternate', 'all'):
+                add('A', '1', md)
+            for md in ('none', 'alternate'):
+                add('A', '1/2', md)
+            add('A', '2', 'none', ('rise',))        # (recessions share no 2 mm level: single-interval body, C08 finding)
+            add('C', '1', 'none')
+            add('B', '1', 'none', ('rise',))
         for which in ('rise', 'recession'):
             out.append({'pattern': 'A', 'grid': '1', 'ongrid': 'all', 'which': which, 'reference': pick_reference(which)})
         # a hole in the water-level record in the first recession (samples 6, 7), a later rise follows
         out.append({'pattern': 'A', 'grid': '1', 'ongrid': 'all', 'which': 'rise', 'gap': (6, 7)})
         # a coarse grid and a rise that stays between two grid levels
         out.append({'pattern': 'D', 'grid': '4', 'ongrid': 'all', 'which': 'rise'})
+        # set-zeta-grid attempted again with another step after the curve was assembled
+        out.append({'pattern': 'A', 'grid': '1', 'ongrid': 'all', 'which': 'rise', 'second_grid': '5'})
         if not quick:
             out.append({'pattern': 'A', 'grid': '1', 'ongrid': 'none', 'which': 'recession', 'gap': (6, 7)})
             out.append({'pattern': 'D', 'grid': '4', 'ongrid': 'none', 'which': 'rise'})
@@ -419,7 +437,7 @@ class C13(Check):
         self.run_conformance(patterns=None)
         for c in cfgs:
             name = config_name(c)
-            exp = symx.explore(harness, c, name=name, engine_kw={'query_timeout_ms': 60000})
+            exp = symx.explore(harness, c, name=name, engine_kw={'query_timeout_ms': 60000}, wall_limit_s=1500)
             self.absorb(exp, need_paths=1)
         for c in cfgs[:4] + cfgs[-2:]:
             ok, info = replay_real(c, {}, c['which'])
